@@ -3,10 +3,12 @@
    extracted datatypes; no Extract Constant of ours. *)
 Require Extraction.
 Require ExtrOcamlBasic.
-From CPF Require Import Base.Bytes Scan.Cst Scan.Build Scan.Decode Scan.Merge Lang.Lexer Lang.Ast Lang.Parser Engine.Eval Engine.Query Engine.Process Engine.Render Cli.Rules Cli.Ci.
+From CPF.gen Require Import Tables.
+From CPF Require Import Base.Bytes Scan.Cst Scan.Build Scan.Decode Scan.Merge Scan.Pool Scan.SkelSem Scan.SkelAbs Lang.Lexer Lang.Ast Lang.Parser Engine.Eval Engine.Query Engine.Process Engine.Render Cli.Rules Cli.Ci.
 Definition decode_node := CPF.Scan.Decode.decode.
 Extraction Language OCaml.
 Extraction "model.ml" build_file census cst_wfb cst_size shape_okb
   lex_query parse_tokens parse_query flatten_query tokens_of_query
   expanded_condition condition results spec_results in_fragment row collect get_files process_query console_session render_json render_text text_rows text_tuple
+  pool_program sk_init sk_steps finished s_panic abs flags_agree enabled_steps init
   decode_node shape_of content parse_ci extract_file ci_run ci_sarif produce consume load_local.
